@@ -1,6 +1,6 @@
 // In-process UCI session runner (DESIGN.md 3.8): the real UCIProtocol + EngineControl + EngineMainThread stack is driven
 // through scripted input / captured output streams inside a child forked from a warmed, single-threaded parent.
-// Script lines are UCI commands or directives:  @await bestmove | @await readyok | @sleep <ms> | @eof
+// Script lines are UCI commands or directives:  @await bestmove | @await readyok | @sleep <ms> | @usleep <us> | @eof
 #pragma once
 #include "harness/common.hpp"
 #include "harness/bridge.hpp"
@@ -77,6 +77,10 @@ private:
 };
 
 /** Runs one script in the current process (to be called in a forked child). Returns 0 on orderly end. */
+/** Thread running EngineMainThread::mainLoop (= the main search thread) of the session in this process. */
+inline pthread_t engineTid;
+inline bool engineTidSet = false;
+
 inline int runScriptInChild(const std::vector<std::string>& script, int outFd, int timeoutS) {
     alarm((unsigned)timeoutS);
     InBuf ib; OutBuf ob; ob.fd = outFd;
@@ -85,7 +89,7 @@ inline int runScriptInChild(const std::vector<std::string>& script, int outFd, i
     {
         UCIProtocol uci(is, os);
         std::thread proto([&]() { uci.mainLoop(false); });
-        std::thread eng([&]() { uci.engineThread.mainLoop(); });
+        std::thread eng([&]() { engineTid = pthread_self(); engineTidSet = true; uci.engineThread.mainLoop(); });
         auto marker = [&](const std::string& s) { if (outFd >= 0) { std::string o = stamped(s) + "\n"; if (::write(outFd, o.data(), o.size())) {} } };
         for (const std::string& line : script) {
             if (line.rfind("@await bestmove", 0) == 0) {
@@ -94,6 +98,8 @@ inline int runScriptInChild(const std::vector<std::string>& script, int outFd, i
             } else if (line.rfind("@await readyok", 0) == 0) {
                 std::unique_lock<std::mutex> L(ob.m);
                 while (ob.nReady < nIsReady) ob.cv.wait(L);
+            } else if (line.rfind("@usleep", 0) == 0) {
+                std::this_thread::sleep_for(std::chrono::microseconds(atoll(line.c_str() + 7)));
             } else if (line.rfind("@sleep", 0) == 0) {
                 std::this_thread::sleep_for(std::chrono::milliseconds(atoi(line.c_str() + 6)));
             } else if (line == "@eof") {
